@@ -10,3 +10,10 @@ def gen_tables():
 def harness():
     return vlib.build_exe('h_sfc', [vlib.ROOT + '/harness/h_sfc.cpp'] +
                           vlib.repo_src('symmetry.cpp', 'polyheur.cpp', 'resinfo.cpp'))
+
+
+MODEL_VO = ['Sfc/SfCache.vo']
+
+
+def driver():
+    return vlib.ocaml_driver('sfc', MODEL_VO)
